@@ -17,6 +17,7 @@ import z3
 from . import api, lib
 from . import calls as _calls  # noqa: F401  (mixes methods into Interp)
 from . import stmts as _stmts  # noqa: F401
+from . import lib2 as _lib2  # noqa: F401  (registers further library models)
 from .engine import Frame, Outcome, fresh, parse_expr
 from .interp import Interp
 from .repo import Repo
@@ -31,7 +32,7 @@ VERIF = Path(__file__).resolve().parent.parent
 
 def load_sidecars():
     api.REG = {"contracts": {}, "classes": {}, "invariants": {}, "lemmas": {}, "specs": {}, "ghosts": {}, "stmts": {}}
-    cdir = VERIF / "contracts"
+    cdir = Path(os.environ.get("PYVC_CONTRACTS") or (VERIF / "contracts"))
     for p in sorted(cdir.glob("*.py")):
         spec = importlib.util.spec_from_file_location("contracts_" + p.stem, p)
         mod = importlib.util.module_from_spec(spec)
